@@ -378,6 +378,18 @@ class Prop:
         return []
 
 
+def _shorten(x, limit=400):
+    """evidence samples: long strings / lists are cut (the replay files keep everything)"""
+    if isinstance(x, str) and len(x) > limit:
+        return x[:limit] + f'...[{len(x)} chars]'
+    if isinstance(x, list):
+        y = [_shorten(v, limit) for v in x[:80]]
+        return y + [f'...[{len(x)} items]'] if len(x) > 80 else y
+    if isinstance(x, dict):
+        return {k: _shorten(v, limit) for k, v in x.items()}
+    return x
+
+
 def load_known():
     p = VERIF + '/known_findings.json'
     if not os.path.exists(p):
@@ -620,7 +632,7 @@ def run_check(prop, tier, seed, replay=None):
                         + list(prop.trusted),
         'theorems': theorems, 'axioms_reported': axioms,
         'evaluations': evals, 'distinct_nontrivial': nontrivial + ctx['extra_nontrivial'],
-        'rule': prop.rule, 'samples': json.loads(json.dumps(samples, default=str))[:4],
+        'rule': prop.rule, 'samples': _shorten(json.loads(json.dumps(samples, default=str))[:4]),
         'traces_validated_against_impl': len(terms),
         'correspondence_mismatches': len(mismatches),
         'oracle_failures': len(failures),
